@@ -154,6 +154,7 @@ class CFG:
     def _stmt(self, stmt, frontier, ctx):
         if isinstance(stmt, ast.If):
             cond = self._new('cond', stmt.test, stmt)
+            self._by_ast.setdefault(id(stmt), cond)
             self._join(frontier, cond)
             self._maybe_exc(cond, stmt.test, ctx)
             out = self._seq(stmt.body, [(cond, True)], ctx)
@@ -161,6 +162,7 @@ class CFG:
             return out
         if isinstance(stmt, ast.While):
             cond = self._new('cond', stmt.test, stmt)
+            self._by_ast.setdefault(id(stmt), cond)
             self._join(frontier, cond)
             self._maybe_exc(cond, stmt.test, ctx)
             loop = _Ctx(self, ctx)
@@ -175,6 +177,7 @@ class CFG:
             return out + loop.breaks
         if isinstance(stmt, (ast.For, ast.AsyncFor)):
             cond = self._new('cond', stmt.iter, stmt)
+            self._by_ast.setdefault(id(stmt), cond)
             self._join(frontier, cond)
             self._maybe_exc(cond, stmt.iter, ctx)
             loop = _Ctx(self, ctx)
@@ -186,6 +189,7 @@ class CFG:
             return out + loop.breaks
         if isinstance(stmt, (ast.With, ast.AsyncWith)):
             cond = self._new('cond', stmt.items[0].context_expr, stmt)
+            self._by_ast.setdefault(id(stmt), cond)
             self._join(frontier, cond)
             self._maybe_exc(cond, stmt, ctx, header_only=True)
             return self._seq(stmt.body, [(cond, None)], ctx)
